@@ -174,10 +174,11 @@ impl EmmyLuaAnalysis {
                 }
             }
         }
-        self.compilation
-            .remove_index(removed_files.into_iter().collect());
-        // The set iterates in a random order that differs from run to run. Index in file id
-        // order, so that e.g. the choice among files sharing one module name is reproducible.
+        // The sets iterate in a random order that differs from run to run. Remove and index in file
+        // id order, so that e.g. the choice among files sharing one module name is reproducible.
+        let mut removed_files: Vec<FileId> = removed_files.into_iter().collect();
+        removed_files.sort();
+        self.compilation.remove_index(removed_files);
         let mut updated_files: Vec<FileId> = updated_files.into_iter().collect();
         updated_files.sort();
         self.compilation.update_index(updated_files.clone());
